@@ -126,13 +126,16 @@ def _split_into_branches(
 
         if current_parent == -1 and is_single_point_soma and current_ind == 1:
             all_branches.append([int(current_ind)])
-            all_types.append(int(current_type))
 
         # Either append the current point to the branch, or add the branch to
         # `all_branches`.
         if current_parent in branch_inds[1:]:
             if len(current_branch) > 1:
                 all_branches.append(current_branch)
+                all_types.append(current_type)
+            elif len(all_types) == len(all_branches):
+                # First neurite of a single-point soma: the soma was added above (without
+                # the type of the branch that starts here).
                 all_types.append(current_type)
             current_branch = [int(current_parent), int(current_ind)]
         else:
